@@ -63,6 +63,7 @@ type store interface {
 	dump() (string, int)                                             // dump of the live store through its query API
 	snapshot() []byte                                                // Snapshot(w)
 	maintain(path string)                                            // real Maintenance: GC + snapshot to path (final run on closed stop channel)
+	maintainEvery(path string, every time.Duration, stop chan struct{}) // real Maintenance with its ticker, until stop closes
 }
 
 type kindOps struct {
@@ -167,6 +168,37 @@ func nfDump(ms []*npb.MeshEntry, q func(*npb.Entry) string) (string, int) {
 }
 
 func (s *nfStore) fill(r *rand.Rand, n int, shape string) (string, bool) {
+	if sp, ok := parseSized(shape); ok {
+		m := sizedEntry(r, sp)
+		if sp.via == "api" { // the notification pipeline's own write: Log() of a large group / large receiver data
+			st := nflog.NewStore(nil)
+			for k, v := range m.Entry.ReceiverData {
+				st.SetStr(k, v.GetStrVal())
+			}
+			if err := s.l.Log(m.Entry.Receiver, string(m.Entry.GroupKey), m.Entry.FiringAlerts, m.Entry.ResolvedAlerts, st, 0); err != nil {
+				panic(err)
+			}
+		} else {
+			var buf bytes.Buffer
+			if _, err := protodelim.MarshalTo(&buf, m); err != nil {
+				panic(err)
+			}
+			if err := s.l.Merge(buf.Bytes()); err != nil {
+				return "mergefail:" + hxHex(err.Error()), false
+			}
+		}
+		for i := 1; i < n; i++ {
+			var buf bytes.Buffer
+			if _, err := protodelim.MarshalTo(&buf, genEntry(r, i, "mix")); err != nil {
+				panic(err)
+			}
+			if err := s.l.Merge(buf.Bytes()); err != nil {
+				panic(fmt.Sprintf("nflog merge: %v", err))
+			}
+		}
+		d, _ := s.dump()
+		return d, true
+	}
 	if shape == "log" { // through the write API of the notification pipeline
 		for i := range n {
 			st := nflog.NewStore(nil)
@@ -263,6 +295,9 @@ func (s *nfStore) snapshot() []byte {
 func closedChan() chan struct{} { c := make(chan struct{}); close(c); return c }
 
 func (s *nfStore) maintain(path string) { s.l.Maintenance(time.Hour, path, closedChan(), nil) }
+func (s *nfStore) maintainEvery(path string, every time.Duration, stop chan struct{}) {
+	s.l.Maintenance(every, path, stop, nil)
+}
 
 var nfKind = kindOps{
 	name:  "nflog",
@@ -371,6 +406,35 @@ func silDump(ms []*spb.MeshSilence, all []*spb.Silence) (string, int) {
 }
 
 func (s *silStore) fill(r *rand.Rand, n int, shape string) (string, bool) {
+	if sp, ok := parseSized(shape); ok {
+		m := sizedSilence(r, sp)
+		if sp.via == "api" { // the API's own write: Set() of a silence with many matchers / long annotations
+			m.Silence.Id = ""
+			m.Silence.StartsAt = nil
+			if err := s.s.Set(context.Background(), m.Silence); err != nil {
+				panic(fmt.Sprintf("set sized: %v", err))
+			}
+		} else {
+			var buf bytes.Buffer
+			if _, err := protodelim.MarshalTo(&buf, m); err != nil {
+				panic(err)
+			}
+			if err := s.s.Merge(buf.Bytes()); err != nil {
+				return "mergefail:" + hxHex(err.Error()), false
+			}
+		}
+		for i := 1; i < n; i++ {
+			var buf bytes.Buffer
+			if _, err := protodelim.MarshalTo(&buf, genSilence(r, i, "mix")); err != nil {
+				panic(err)
+			}
+			if err := s.s.Merge(buf.Bytes()); err != nil {
+				panic(fmt.Sprintf("silence merge: %v", err))
+			}
+		}
+		d, _ := s.dump()
+		return d, true
+	}
 	if shape == "set" { // through the API's write path
 		for i := range n {
 			sil := genSilence(r, i, "mix").Silence
@@ -467,6 +531,9 @@ func (s *silStore) snapshot() []byte {
 }
 
 func (s *silStore) maintain(path string) { s.s.Maintenance(time.Hour, path, closedChan(), nil) }
+func (s *silStore) maintainEvery(path string, every time.Duration, stop chan struct{}) {
+	s.s.Maintenance(every, path, stop, nil)
+}
 
 var silKind = kindOps{
 	name:  "silence",
